@@ -435,7 +435,7 @@ def programs(tier, seed):
                                           ext=True)
                     idx += 1
     for p in two_clock_programs() + spawn_programs() + rand_programs() + \
-            main_programs() + stop_programs():
+            main_programs() + stop_programs() + multiwait_programs():
         yield idx, p
         idx += 1
 
@@ -513,6 +513,68 @@ def rand_programs():
                     'funcs': {}, 'conds': ['c0'], 'inherit': True,
                     'actors': {'main': [['play', 'A', c, 0]]},
                     'horizon': 8.0})
+    return out
+
+
+def multiwait_programs():
+    """3, 5 or 8 routines wait on ONE Condition / FlowVar and are released
+    by one signal() / unhang() / value assignment.  They started to wait in
+    an order that differs from the order in which they were created; once
+    released each one logs, draws a random value and sends a bundle for the
+    same time tag, so the order in which the library hands them back to the
+    clock is visible in the score, in the values drawn from a generator
+    they share (children of one seeded routine) and in the run order.  That
+    order must be the same in every fresh process and in both modes."""
+    out = []
+    for c in ('s', 't2', 'a'):
+        for n in (3, 5, 8):
+            perms = [list(range(n))[::-1],
+                     [(3 * i + 1) % n for i in range(n)] if n % 3 else
+                     [(2 * i + 1) % n for i in range(n)]]
+            for pi, perm in enumerate(perms):
+                for how in ('signal', 'unhang', 'flowvar'):
+                    for nested in (True, False):
+                        names = [f'W{i}' for i in range(n)]
+                        bodies = {}
+                        for i, w in enumerate(names):
+                            wait = ['fwait', 'v0'] if how == 'flowvar' \
+                                else ['wait', 'c0']
+                            b = [['yield', 0.125 * (perm[i] + 1)], wait,
+                                 ['log'], ['rand', 'rrand'],
+                                 ['send', 0.25, 50 + i], ['yield', 0.25],
+                                 ['rand', 'choice'], ['sendm', 70 + i]]
+                            if not nested:
+                                b = [['seed', 11]] + b
+                            bodies[w] = b
+                        release = {
+                            'signal': [['set', 'c0', True],
+                                       ['signal', 'c0']],
+                            'unhang': [['unhang', 'c0']],
+                            'flowvar': [['fset', 'v0', 5]]}[how]
+                        a = [['seed', 7], ['rand', 'rrand']]
+                        if nested:
+                            a += [['spawn', w, c] for w in names]
+                        a += [['yield', 2.0]] + release + \
+                            [['yield', 0.5], ['rand', 'rrand']]
+                        clocks = {'s': ['system']}
+                        clocks[c] = c05.CLOCKSPEC[c]
+                        prog = {
+                            'clocks': clocks, 'funcs': {}, 'conds': ['c0'],
+                            'flowvars': ['v0'], 'multiwait': True,
+                            'horizon': 8.0}
+                        if nested:
+                            prog['routines'] = {'A': a, 'B': [['seed', 9]]}
+                            prog['spawned'] = bodies
+                            prog['actors'] = {'main': [['play', 'A', c, 0]]}
+                        else:
+                            r = dict(bodies)
+                            r['A'] = a
+                            prog['routines'] = r
+                            # played in yet another order
+                            prog['actors'] = {'main': [
+                                ['play', w, c, 0] for w in names[1::2] +
+                                names[0::2]] + [['play', 'A', c, 0]]}
+                        out.append(prog)
     return out
 
 
@@ -698,6 +760,8 @@ def observe(prog, res, mode):
     sends = {}
     counts = {}
     contents = {}
+    # which routine / function ran, in run order
+    resorder = [e[1] for e in res['trace'] if e[0] in ('res', 'wake')]
 
     def key(addr, tag, args):
         k = str(tag) if addr == '/t' else f'{addr}{tag}'
@@ -736,10 +800,11 @@ def observe(prog, res, mode):
             order.sort(key=lambda x: round(x[0] * 2 ** 20))
         return {'per': per, 'sends': sends, 'counts': counts,
                 'contents': contents, 'order': [k for _, k in order],
-                'status': res['status']}
+                'resorder': resorder, 'status': res['status']}
     if res['status'] != 'ok':
         return {'per': per, 'sends': {}, 'sends_list': {}, 'counts': {},
-                'contents': {}, 'order': [], 'status': res['status']}
+                'contents': {}, 'order': [], 'resorder': resorder,
+                'status': res['status']}
     # NRT: what is rendered is the binary score - every message of every
     # (nested) bundle of it, with the time tag of its enclosing bundle
     raw = bytes.fromhex(res['raw'])
@@ -766,7 +831,8 @@ def observe(prog, res, mode):
         if b[1][0] == '/t':
             lst.setdefault(str(b[1][1]), []).append(b[0])
     return {'per': per, 'sends': sends, 'sends_list': lst, 'counts': counts,
-            'contents': contents, 'order': order, 'status': res['status']}
+            'contents': contents, 'order': order, 'resorder': resorder,
+            'status': res['status']}
 
 
 def one_thread(prog):
@@ -807,6 +873,12 @@ def compare(o_nrt, o_rt, ordered=False):
                     ('nrt-longer' if eb is None else 'rt-longer')
             dis.append((kind, {'nrt': ea}, {'rt': eb},
                         f'{who} event {n}: nrt {a} / rt {b}'))
+    if ordered and not dis and 'resorder' in o_nrt and \
+            o_nrt.get('resorder') != o_rt.get('resorder'):
+        dis.append(('modes-differ-run-order', o_nrt.get('resorder'),
+                    o_rt.get('resorder'),
+                    'routines / functions in the order in which they ran '
+                    '(all on one clock)'))
     if not dis:
         def differ(ta, tb):
             if ta is None or tb is None or len(ta) != len(tb):
@@ -945,8 +1017,9 @@ def replay(job):
                     'from mc.checks import c10;'
                     'p = json.loads(sys.argv[1]);'
                     'r = c10.run_nrt(p);'
-                    'print(json.dumps([r["raw"], '
-                    'c10.observe(p, r, "nrt")["per"]]))') % (core.REPO,
+                    'o = c10.observe(p, r, "nrt");'
+                    'print(json.dumps([r["raw"], o["per"], '
+                    'o["resorder"]]))') % (core.REPO,
                                                              core.VERIF)
             env = dict(__import__('os').environ, PYTHONHASHSEED=hs)
             p = subprocess.run([sys.executable, '-W', 'ignore', '-c', code,
@@ -1006,6 +1079,11 @@ def chunked(items, n):
     return [items[i:i + n] for i in range(0, len(items), n)]
 
 
+def _nrt_differs(a, b):
+    return a['raw'] != b['raw'] or a['per'] != b['per'] or \
+        a.get('resorder') != b.get('resorder')
+
+
 def has_stmt(prog, *ops):
     bodies = list(prog.get('routines', {}).values()) + \
         list(prog.get('spawned', {}).values()) + \
@@ -1061,7 +1139,7 @@ def base_kind(kind):
 
 
 def n_routines(o):
-    return len([w for w in o['per'] if w in ('A', 'B', 'C', 'D')])
+    return len([w for w in o['per'] if w not in X_FUNCS])
 
 
 def main(ctx):
@@ -1144,7 +1222,7 @@ def main(ctx):
                 raise core.HarnessError(res['harness_error'])
             for idx, o in res['obs']:
                 n += 1
-                if o['raw'] != nrt[idx]['raw'] or o['per'] != nrt[idx]['per']:
+                if _nrt_differs(o, nrt[idx]):
                     ctx.violation({
                         'kind': 'nrt-score-depends-on-hash-seed' + fam[idx],
                         'case': {'prog': byidx[idx], 'part': 'hashseed',
@@ -1154,11 +1232,36 @@ def main(ctx):
                         'size': len(core.canon(byidx[idx]))})
         ctx.bounds[f'nrt determinism hashseed {hs}'] = {'programs': n}
         ctx.evaluations += n
+    # the same in fresh processes with ONE hash seed (object addresses, and
+    # with them the hashes of objects hashed by identity, differ from process
+    # to process): every job of this pool runs in a process of its own
+    fresh = [(i, p) for i, p in progs if p.get('multiwait')
+             or p.get('inherit') or p.get('twoclock')]
+    n = 0
+    for rnd_no in range(3):
+        for res in ctx.map('nrt', MODNAME, 'work_nrt',
+                           [{'progs': b, 'round': rnd_no}
+                            for b in chunked(fresh, 24)], maxtasks=1):
+            for idx, o in res['obs']:
+                n += 1
+                if _nrt_differs(o, nrt[idx]):
+                    ctx.violation({
+                        'kind': 'nrt-score-differs-between-fresh-processes'
+                        + fam[idx],
+                        'case': {'prog': byidx[idx], 'part': 'hashseed',
+                                 'hashseed': '0'},
+                        'expected': nrt[idx]['raw'], 'observed': o['raw'],
+                        'detail': 'two processes, both PYTHONHASHSEED=0',
+                        'size': len(core.canon(byidx[idx]))})
+    ctx.bounds['nrt determinism, 3 more fresh processes per program '
+               '(one hash seed)'] = {'programs': len(fresh), 'runs': n}
+    ctx.evaluations += n
     # random stream independence
     rnd = [(i, p) for i, p in progs if p.get('spawn') or p.get('randfam')] + \
           [(i, p) for i, p in progs
            if len(p['routines']['A']) < 8 and not p.get('spawn')
            and not p.get('randfam') and not p.get('inherit')
+           and not p.get('multiwait')
            and any(st[0] == 'rand' for st in p['routines']['A'])
            and any(st[0] == 'rand' for st in p['routines']['B'])]
     progenum.run(ctx, MODNAME, 'work_indep',
